@@ -197,7 +197,7 @@ func c09Globals(c *Ctx) {
 		// all accesses must hold one common mutex; writes exclusively
 		common := map[string]int{}
 		for _, a := range acc[g] {
-			for _, l := range locksHeldAt(a.fn, a.in) {
+			for _, l := range c.locksHeldAtUp(a.fn, a.in, 0) {
 				common[l.key]++
 			}
 		}
@@ -209,7 +209,7 @@ func c09Globals(c *Ctx) {
 		}
 		for i, a := range acc[g] {
 			key := fmt.Sprintf("%s %s in %s#%d", gname, a.what, shortFn(a.fn), i)
-			held := locksHeldAt(a.fn, a.in)
+			held := c.locksHeldAtUp(a.fn, a.in, 0)
 			ok, excl := false, false
 			for _, l := range held {
 				if mu != "" && l.key == mu {
@@ -356,7 +356,7 @@ func c09Tunnel(c *Ctx) {
 				i++
 				key := fmt.Sprintf("Tunnel.%s %s in %s#%d", f.Name(), a.what, shortFn(a.fn), i)
 				held := false
-				for _, l := range locksHeldAt(a.fn, a.in) {
+				for _, l := range c.locksHeldAtUp(a.fn, a.in, 0) {
 					if strings.HasPrefix(l.key, "field:"+protoPkg+".Tunnel.") && l.base == a.base && l.exclusive {
 						held = true
 					}
